@@ -7,6 +7,7 @@ from ..flow import AbsInt
 from ..rules import fmt_trace
 
 ID = "C15"
+ANCHORS = 'utils.one_hot_encode,utils._fast_one_hot_encode,utils.characters,utils.reverse_complement,utils.chunk,utils.unchunk'.split(",")
 MIN_INSTANCES = 12
 EXPLANATION = (
     "R-TABLE (one_hot_encode): the 256-entry byte table is filled with the 'illegal' sentinel by default, alphabet bytes with "
